@@ -59,6 +59,8 @@ type BlockchainRpcTxWatcher struct {
 
 	ctx context.Context
 	sync.Mutex
+	// csvScanMu serializes HandleCsvTx scans.
+	csvScanMu sync.Mutex
 }
 
 func (s *BlockchainRpcTxWatcher) GetBlockHeight() (uint32, error) {
@@ -172,6 +174,9 @@ func (s *BlockchainRpcTxWatcher) StartBlockWatcher() error {
 
 // HandleCsvTx looks for transactions that have enough confirmations to be spend using the csv path
 func (s *BlockchainRpcTxWatcher) HandleCsvTx(blockheight uint64) error {
+	// Only one scan at a time: the watcher lock is released around callbacks.
+	s.csvScanMu.Lock()
+	defer s.csvScanMu.Unlock()
 	var toRemove []string
 	s.Lock()
 	for k, v := range s.csvtxWatchList {
@@ -189,7 +194,12 @@ func (s *BlockchainRpcTxWatcher) HandleCsvTx(blockheight uint64) error {
 		if s.csvPassedCallback == nil {
 			continue
 		}
-		err = s.csvPassedCallback(k)
+		// The callback sends an event to the swap's state machine, whose
+		// actions register watches here: never call it with the lock held.
+		callback := s.csvPassedCallback
+		s.Unlock()
+		err = callback(k)
+		s.Lock()
 		if err != nil {
 			log.Infof("csv passed callback err: %v. swap id: %s, tx id: %s, starting block height: %d",
 				err, k, v.TxId, v.StartingBlockHeight)
